@@ -105,6 +105,30 @@ def check_parsed(rec, sub, case, ds, expect, ns, extra_grid_kw=None):
 
     npos = max(len(v) for v in expect.values())
     rec.case(tuple(sorted((str(k), str(v)) for k, v in case.items())), npos >= 2, sample=case, calls=2)
+    if len(repr(sorted(case.items(), key=str))) % 2 == 0:
+        # history on one Dataset object: it is first seen with another annotation (shifts negated, low <-> high), which is
+        # then corrected in place (no dimension changes its length); what is parsed afterwards is the annotation it has now
+        saved = []
+        for name in list(ds.variables):
+            at = ds[name].attrs
+            for k in ("c_grid_axis_shift", "face_dimensions", "volume_dimensions", "vertical_dimensions"):
+                if k in at:
+                    saved.append((at, k, at[k]))
+                    v = at[k]
+                    if k == "c_grid_axis_shift":
+                        at[k] = (str(-float(v)) if isinstance(v, str) else type(v)(-v))
+                    else:
+                        at[k] = v.replace("low", "\0").replace("high", "low").replace("\0", "high")
+        if saved:
+            try:
+                with warnings.catch_warnings():
+                    warnings.simplefilter("ignore")
+                    Grid(ds, periodic=False, **(extra_grid_kw or {}))
+                rec.calls += 1
+            except Exception:
+                pass
+            for at, k, v in saved:
+                at[k] = v
     try:
         with warnings.catch_warnings():
             warnings.simplefilter("ignore")
@@ -184,14 +208,18 @@ SG_NAMES = (
 )
 
 
-def sgrid_ds(kind, pads, sp, conv_key, conv_val, ni, n=3, comodo_noise=False):
+def sgrid_ds(kind, pads, sp, conv_key, conv_val, ni, n=3, comodo_noise=False, fd_reversed=False):
     names = SG_NAMES[ni]
     axes = {"1d": ("X",), "2d": ("X", "Y"), "2dv": ("X", "Y", "Z"), "3d": ("X", "Y", "Z")}[kind]
     s = " " if sp else ""
     attrs = {"cf_role": "grid_topology", "topology_dimension": {"1d": 1, "2d": 2, "2dv": 2, "3d": 3}[kind]}
     horiz = axes if kind == "3d" else axes[:2] if kind in ("2d", "2dv") else axes
     attrs["node_dimensions"] = " ".join(names[a][1] for a in horiz)
-    body = " ".join(f"{names[a][0]}:{s}{names[a][1]} (padding:{s}{pads[i]})" for i, a in enumerate(horiz))
+    items = [f"{names[a][0]}:{s}{names[a][1]} (padding:{s}{pads[i]})" for i, a in enumerate(horiz)]
+    if fd_reversed:
+        # the cell:node pairs listed in another order than node_dimensions (pairs are matched by node name)
+        items.reverse()
+    body = " ".join(items)
     if kind == "3d":
         attrs["volume_dimensions"] = body
     else:
@@ -218,12 +246,14 @@ def sgrid_cases(tier):
             if tier == "quick":
                 k += 1
                 combos = [combos[(k * 7 + j * 11) % len(combos)] for j in range(4)] + [c for c in combos if c[3] == 1][k % 12: k % 12 + 1]
-            for sp, ck, cv, ni in combos:
+            for j, (sp, ck, cv, ni) in enumerate(combos):
                 yield dict(conv="sgrid", kind=kind, pads=list(pads), sp=sp, ck=ck, cv=cv, ni=ni)
+                if nax >= 2 and j % 2 == 0:
+                    yield dict(conv="sgrid", kind=kind, pads=list(pads), sp=sp, ck=ck, cv=cv, ni=ni, fdrev=True)
 
 
 def run_sgrid(rec, case, noise=False):
-    ds, expect = sgrid_ds(case["kind"], case["pads"], case["sp"], case["ck"], case["cv"], case["ni"], comodo_noise=noise)
+    ds, expect = sgrid_ds(case["kind"], case["pads"], case["sp"], case["ck"], case["cv"], case["ni"], comodo_noise=noise, fd_reversed=case.get("fdrev", False))
     ns = {a: 3 for a in expect}
     check_parsed(rec, "sgrid" if not noise else "sgrid-wins-over-comodo", dict(case, noise=noise), ds, expect, ns)
 
